@@ -371,7 +371,7 @@ class Machine:
                 v = get_path(cell.v, path)
                 if isinstance(v, StrV):
                     # &str / &[u8] views are values of the text model: materialise the bytes for indexing
-                    cell, path = Cell(Agg([IntV(b, 'u8') for b in v.bytes()])), []
+                    cell, path = Cell(Agg([IntV(b, 'u8') for b in v.bytes()]), tag=('strview', v)), []
                     continue
                 if not isinstance(v, Ref):
                     raise Inconclusive('deref of non-reference %r in %s (%s)' % (v, place_s, fr.item.name))
@@ -446,6 +446,7 @@ class Machine:
         if s.startswith('&') and not s.startswith('&&'):
             m = re.match(r'^&(?:mut |raw const \(fake\) |raw mut \(fake\) |raw const |raw mut |fake shallow |fake )?(.*)$', s)
             cell, path = self.resolve(st, fr, m.group(1))
+            if not path and isinstance(cell.tag, tuple) and cell.tag[0] == 'strview': return cell.tag[1]     # reborrow of a str view
             return Ref(cell, path)
         if s.startswith('discriminant('):
             v = self.read(st, fr, s[13:-1])
@@ -813,10 +814,27 @@ class Machine:
 
     def _pick(self, cands, fname):
         if len(cands) == 1: return cands[0][0]
-        # several impls with the same (type base, trait base, method): disambiguate by generic arguments in the name
+        # several impls with the same (type base, trait base, method): disambiguate by the trait's generic arguments
+        fn = fname.replace(' ', '')
+        m = re.search(r' as ([A-Za-z_:]+)(<.*>)?>::[A-Za-z_0-9]+', fname)
+        targs = (m.group(2) or '') if m else ''
+        best = []
         for it, trait_full, ty_full in cands:
-            if trait_full and trait_full.replace(' ', '') in fname.replace(' ', ''): return it
-        return cands[0][0]
+            tf = re.sub(r"'[a-z_]+\s*,?\s*", '', trait_full or '').replace(' ', '')
+            mm = re.match(r'^[A-Za-z_:]+(<.*>)?$', tf)
+            ta = (mm.group(1) or '') if mm else ''
+            if targs:
+                norm = lambda x: re.sub(r"<>", '', re.sub(r"'[a-z_]+\s*,?\s*", '', x).replace(' ', ''))
+                if norm(ta) == norm(targs): return it
+            else:
+                # no explicit argument at the call site = the default `Rhs = Self`
+                tyb = re.sub(r"<.*>", '', ty_full).strip()
+                if ta == '' or re.sub(r"<.*>$", '', ta[1:-1]).strip() == tyb or ta[1:-1] == 'Self': best.append(it)
+        if len(best) == 1: return best[0]
+        if targs:
+            for it, trait_full, ty_full in cands:
+                if trait_full and trait_full.replace(' ', '') in fn: return it
+        raise Inconclusive('ambiguous impl for %s: %s' % (fname, [c[1] for c in cands]))
 
 
 def snapshot(v):
